@@ -268,6 +268,22 @@ def tree_hash():
         return "unknown"
 
 
+def cleanup_scratch(pid):
+    """Workers that died (crash verdicts, minimiser children) leave their per-process scratch directory behind."""
+    for base in ("/dev/shm", os.path.join(VERIF, "scratch")):
+        for path in glob.glob(os.path.join(base, "stirverif-%s-*" % pid)):
+            m = re.search(r"-(\d+)(\.stderr)?$", path)
+            if m and os.path.exists("/proc/" + m.group(1)):
+                continue  # still running (another check of the same property, e.g. a background run)
+            if os.path.isdir(path):
+                shutil.rmtree(path, ignore_errors=True)
+            else:
+                try:
+                    os.remove(path)
+                except OSError:
+                    pass
+
+
 def cmd_check(args):
     pid = args.property
     c = CHECKS[pid]
@@ -349,6 +365,7 @@ def cmd_check(args):
         t_built - t_start))
     for l in lines:
         log(l)
+    cleanup_scratch(pid)
     return exit_code
 
 
